@@ -1007,3 +1007,251 @@ Proof.
   rewrite <- (index_from_items (msg_topics topics) 0) in Ht. apply in_map_iff in Ht as ([j t'] & Ej & Hj).
   cbn [snd] in Ej. subst t'. apply in_map_iff. exists (j, t). split; [reflexivity|exact Hj].
 Qed.
+
+(* ====================================================================================== *)
+(* 6'. the deferred Close succeeds too (fault-free writer)                                 *)
+(* ====================================================================================== *)
+
+(* what Close needs when it repeats the schemas and channels in the summary section: no registered schema has id 0,
+   every registered channel refers to schema 0 or to a registered schema *)
+Definition chan_ok (w : wstate) (p : N * channel) : Prop :=
+  c_schema (snd p) = 0 \/ has (c_schema (snd p)) (w_schemas w) = true.
+Definition sch_inv (w : wstate) : Prop :=
+  Forall (fun p : N * schema => s_id (snd p) <> 0) (w_schemas w) /\ Forall (chan_ok w) (w_channels w).
+
+Lemma sch_inv_frame w w' : w_schemas w' = w_schemas w -> w_channels w' = w_channels w -> sch_inv w -> sch_inv w'.
+Proof. unfold sch_inv, chan_ok. intros -> ->. tauto. Qed.
+
+Lemma has_app_l {A} k (l : list (N * A)) x : has k l = true -> has k (l ++ [x]) = true.
+Proof. intro H. rewrite has_app, H. reflexivity. Qed.
+
+Lemma add_schema_inv sc w : s_id sc <> 0 -> sch_inv w -> sch_inv (add_schema sc w).
+Proof.
+  intros Hid [H1 H2]. unfold add_schema. destruct (assoc_get (s_id sc) (w_schemas w)); [split; assumption|].
+  unfold sch_inv, chan_ok, set. cbn. split.
+  - apply Forall_app. split; [exact H1|]. constructor; [exact Hid|constructor].
+  - eapply Forall_impl; [|exact H2]. intros p [Hp|Hp]; [left; exact Hp|right; apply has_app_l, Hp].
+Qed.
+Lemma add_schema_frame sc w :
+  w_channels (add_schema sc w) = w_channels w /\
+  (forall k, has k (w_schemas w) = true -> has k (w_schemas (add_schema sc w)) = true).
+Proof.
+  unfold add_schema. destruct (assoc_get (s_id sc) (w_schemas w)); [split; auto|].
+  unfold set. cbn. split; [reflexivity|]. intros k. apply has_app_l.
+Qed.
+Lemma add_channel_inv c w : c_schema c = 0 \/ has (c_schema c) (w_schemas w) = true -> sch_inv w -> sch_inv (add_channel c w).
+Proof.
+  intros Hc [H1 H2]. unfold add_channel. destruct (assoc_get (c_id c) (w_channels w)); [split; assumption|].
+  unfold sch_inv, chan_ok, set. cbn. split; [exact H1|].
+  apply Forall_app. split; [exact H2|]. constructor; [exact Hc|constructor].
+Qed.
+Lemma add_channel_schemas c w : w_schemas (add_channel c w) = w_schemas w.
+Proof. unfold add_channel. destruct (assoc_get (c_id c) (w_channels w)); reflexivity. Qed.
+
+Section ClosePass.
+Variable o : wopts.
+Variable lib : bytes.
+Variable compress : nat -> bytes -> bytes.
+
+Notation step := (step o lib compress None).
+
+Lemma schema_step_eq sc w : s_id sc <> 0 ->
+  step (CSchema sc) w
+  = (add_schema sc (if in_chunk o w then rec_chunk OpSchema (enc_schema sc) w else rec_dst o OpSchema (enc_schema sc) w), None).
+Proof.
+  intro H. cbn [Writer.step]. unfold write_schema.
+  destruct (s_id sc =? 0) eqn:E; [apply N.eqb_eq in E; congruence|]. rewrite auto_rec. reflexivity.
+Qed.
+Lemma channel_step_eq c w : c_schema c = 0 \/ has (c_schema c) (w_schemas w) = true ->
+  step (CChannel c) w
+  = (add_channel c (if in_chunk o w then rec_chunk OpChannel (enc_channel c) w else rec_dst o OpChannel (enc_channel c) w), None).
+Proof.
+  intro H. cbn [Writer.step]. unfold write_channel.
+  assert (E : (0 <? c_schema c) && negb (match assoc_get (c_schema c) (w_schemas w) with Some _ => true | None => false end) = false).
+  { destruct H as [H|H]; [rewrite H; reflexivity|]. unfold has in H. rewrite H. apply andb_false_r. }
+  rewrite E, auto_rec. reflexivity.
+Qed.
+Lemma channel_step_cond c w : snd (step (CChannel c) w) = None -> c_schema c = 0 \/ has (c_schema c) (w_schemas w) = true.
+Proof.
+  cbn [Writer.step]. unfold write_channel, has.
+  destruct (0 <? c_schema c) eqn:E0; [|intros _; left; apply N.ltb_ge in E0; lia].
+  destruct (assoc_get (c_schema c) (w_schemas w)); cbn [negb andb]; [intros _; right; reflexivity|discriminate].
+Qed.
+
+Lemma schema_step_inv sc w : snd (step (CSchema sc) w) = None -> sch_inv w -> sch_inv (fst (step (CSchema sc) w)).
+Proof.
+  intros Hp Hi. destruct (N.eq_dec (s_id sc) 0) as [E|E]; [rewrite schema_step_zero in Hp by exact E; discriminate|].
+  rewrite schema_step_eq by exact E. cbn [fst]. apply add_schema_inv; [exact E|].
+  destruct (auto_rec_frame o OpSchema (enc_schema sc) w) as [Hc Hs]. cbv zeta in Hc, Hs.
+  eapply sch_inv_frame; eassumption.
+Qed.
+Lemma channel_step_inv c w : snd (step (CChannel c) w) = None -> sch_inv w -> sch_inv (fst (step (CChannel c) w)).
+Proof.
+  intros Hp Hi. apply channel_step_cond in Hp. rewrite channel_step_eq by exact Hp. cbn [fst].
+  destruct (auto_rec_frame o OpChannel (enc_channel c) w) as [Hc Hs]. cbv zeta in Hc, Hs.
+  apply add_channel_inv; [rewrite Hs; exact Hp|]. eapply sch_inv_frame; eassumption.
+Qed.
+
+Lemma schemas_wmis mis : forall s, w_schemas (wmis o mis s) = w_schemas s.
+Proof. induction mis as [|mi r IH]; intro s; [reflexivity|]. cbn [wmis fold_left]. etransitivity; [apply IH|reflexivity]. Qed.
+Lemma schemas_flushed s : w_schemas (flushed o compress s) = w_schemas s.
+Proof. unfold flushed, chunk_written. cbv zeta. unfold set. cbn. rewrite schemas_wmis. reflexivity. Qed.
+Lemma schemas_stats_time t s : w_schemas (stats_time t s) = w_schemas s.
+Proof.
+  unfold stats_time. destruct (w_st_end s <? t);
+  match goal with |- context [if ?c then _ else _] => destruct c end; reflexivity.
+Qed.
+
+Lemma message_step_inv m w : snd (step (CMessage m) w) = None -> sch_inv w -> sch_inv (fst (step (CMessage m) w)).
+Proof.
+  intros Hp Hi. cbn [Writer.step] in *.
+  destruct (write_message o compress None m w) as [w' e] eqn:E. cbn [fst snd] in *. subst e.
+  apply write_message_eq in E. destruct E as (c & _ & ->).
+  eapply sch_inv_frame; [| |exact Hi].
+  - rewrite schemas_stats_time. destruct (in_chunk o w); [|reflexivity].
+    destruct (o_chunksize o <? Z.of_N (blen (w_cbuf (msg_chunk_state m w))))%Z; [rewrite schemas_flushed|]; reflexivity.
+  - rewrite (channels_stats_time). destruct (in_chunk o w); [|reflexivity].
+    destruct (o_chunksize o <? Z.of_N (blen (w_cbuf (msg_chunk_state m w))))%Z; [rewrite channels_flushed|]; reflexivity.
+Qed.
+
+Definition data_call (c : wcall) : Prop :=
+  match c with CHeader _ | CSchema _ | CChannel _ | CMessage _ => True | _ => False end.
+
+Lemma exec_inv cs : forall w, Forall data_call cs -> calls_pass o lib compress cs w -> sch_inv w ->
+  sch_inv (exec o lib compress cs w).
+Proof.
+  induction cs as [|c r IH]; intros w Hk Hp Hi; [exact Hi|].
+  inversion Hk as [|? ? Hc Hr]; subst. cbn [calls_pass] in Hp. destruct Hp as [Hp1 Hp2]. cbn [exec].
+  apply IH; [exact Hr|exact Hp2|].
+  destruct c as [h|sc|ch|m|a src|md|]; try destruct Hc.
+  - destruct (header_step_frame o lib compress h w) as [A B]. eapply sch_inv_frame; eassumption.
+  - apply schema_step_inv; assumption.
+  - apply channel_step_inv; assumption.
+  - apply message_step_inv; assumption.
+Qed.
+
+(* --- Close --- *)
+Lemma write_all_dst {A} op (g : A -> bytes) : forall l s,
+  snd (write_all (fun x => write_record_dst o None op (g x)) l s) = None.
+Proof.
+  induction l as [|x r IH]; intro s; [reflexivity|]. cbn [write_all]. rewrite wrd_eq. cbn [bindw]. apply IH.
+Qed.
+
+Lemma write_all_schemas : forall l s, Forall (fun sc => s_id sc <> 0) l ->
+  snd (write_all (write_schema o None) l s) = None /\
+  w_channels (fst (write_all (write_schema o None) l s)) = w_channels s /\
+  (forall k, has k (w_schemas s) = true -> has k (w_schemas (fst (write_all (write_schema o None) l s))) = true).
+Proof.
+  induction l as [|sc r IH]; intros s H; [repeat split; auto|].
+  inversion H as [|? ? H1 H2]; subst. cbn [write_all].
+  pose proof (schema_step_eq sc s H1) as E. cbn [Writer.step] in E. rewrite E. cbn [bindw].
+  set (s1 := if in_chunk o s then _ else _) in *.
+  destruct (auto_rec_frame o OpSchema (enc_schema sc) s) as [Hc Hs]. cbv zeta in Hc, Hs. fold s1 in Hc, Hs.
+  destruct (add_schema_frame sc s1) as [F1 F2].
+  destruct (IH (add_schema sc s1) H2) as (I1 & I2 & I3).
+  split; [exact I1|]. split; [rewrite I2, F1, Hc; reflexivity|].
+  intros k Hk. apply I3, F2. rewrite Hs. exact Hk.
+Qed.
+
+Lemma write_all_channels : forall l s,
+  Forall (fun c => c_schema c = 0 \/ has (c_schema c) (w_schemas s) = true) l ->
+  snd (write_all (write_channel o None) l s) = None.
+Proof.
+  induction l as [|c r IH]; intros s H; [reflexivity|].
+  inversion H as [|? ? H1 H2]; subst. cbn [write_all].
+  pose proof (channel_step_eq c s H1) as E. cbn [Writer.step] in E. rewrite E. cbn [bindw].
+  apply IH. rewrite add_channel_schemas.
+  destruct (auto_rec_frame o OpChannel (enc_channel c) s) as [_ Hs]. cbv zeta in Hs. rewrite Hs. exact H2.
+Qed.
+
+Definition serr (x : sres) : option err := snd (fst x).
+Definition sst (x : sres) : wstate := fst (fst x).
+
+Lemma grp_pass cond op f x :
+  serr x = None -> (cond (sst x) = true -> snd (f (sst x)) = None) -> serr (grp cond op f x) = None.
+Proof.
+  destruct x as [[s e] offs]. unfold serr, sst. cbn [fst snd]. intros -> H. unfold grp.
+  destruct (cond s); [|reflexivity]. specialize (H eq_refl). destruct (f s) as [s1 e1]. cbn [snd] in H. subst e1. reflexivity.
+Qed.
+
+Lemma summary_pass s : sch_inv s -> serr (write_summary o None s) = None.
+Proof.
+  intros [H1 H2]. rewrite write_summary_grp.
+  apply grp_pass; [|intros _; apply write_all_dst].
+  apply grp_pass; [|intros _; apply write_all_dst].
+  apply grp_pass; [|intros _; apply write_all_dst].
+  apply grp_pass; [|intros _; unfold g_sta; rewrite wrd_eq; reflexivity].
+  assert (HS : Forall (fun sc => s_id sc <> 0) (map snd (w_schemas s))).
+  { apply Forall_map. exact H1. }
+  destruct (write_all_schemas (map snd (w_schemas s)) s HS) as (S1 & S2 & S3).
+  assert (HX : serr (grp (c_sch o) OpSchema (g_sch o None) (s, None, [])) = None /\
+               w_channels (sst (grp (c_sch o) OpSchema (g_sch o None) (s, None, []))) = w_channels s /\
+               (forall k, has k (w_schemas s) = true ->
+                          has k (w_schemas (sst (grp (c_sch o) OpSchema (g_sch o None) (s, None, [])))) = true)).
+  { unfold grp, g_sch. destruct (c_sch o s); [|repeat split; auto].
+    destruct (write_all (write_schema o None) (map snd (w_schemas s)) s) as [s1 e1]. cbn [fst snd] in S1, S2, S3. subst e1.
+    unfold serr, sst. cbn [fst snd]. repeat split; auto. }
+  destruct HX as (X1 & X2 & X3).
+  apply grp_pass; [exact X1|]. intros _. unfold g_chn. apply write_all_channels.
+  rewrite X2. apply Forall_map. eapply Forall_impl; [|exact H2].
+  intros p [Hp|Hp]; [left; exact Hp|right; apply X3, Hp].
+Qed.
+
+Lemma close_tail_pass s : sch_inv s -> snd (close_tail o s) = None.
+Proof.
+  intro Hi. unfold close_tail. cbv zeta. rewrite wrd_eq. cbn [bindw].
+  match goal with |- context [write_summary o None ?S] => set (s1 := S) end.
+  assert (Hi1 : sch_inv s1) by (eapply sch_inv_frame; [| |exact Hi]; reflexivity).
+  pose proof (summary_pass s1 Hi1) as HS.
+  destruct (write_summary o None s1) as [[s2 e2] offs]. unfold serr in HS. cbn [fst snd] in HS. subst e2.
+  match goal with |- context [if ?c then write_all ?f offs s2 else _] =>
+    assert (HW : snd (if c then write_all f offs s2 else (s2, None)) = None)
+      by (destruct c; [apply write_all_dst|reflexivity]);
+    destruct (if c then write_all f offs s2 else (s2, None)) as [s3 e3] end.
+  cbn [snd] in HW. subst e3. cbn [bindw]. rewrite write_footer_eq. cbn [bindw].
+  rewrite dst_write_none. cbn [bindw]. reflexivity.
+Qed.
+
+Lemma close_pass s : sch_inv s -> snd (step CClose s) = None.
+Proof.
+  intro Hi. cbn [Writer.step]. rewrite close_split.
+  destruct (o_chunked o); [|cbn [bindw]; apply close_tail_pass, Hi].
+  destruct (w_cbuf s) eqn:E.
+  - rewrite flush_nil by exact E. cbn [bindw]. apply close_tail_pass, Hi.
+  - rewrite flush_eq by congruence. cbn [bindw]. apply close_tail_pass.
+    eapply sch_inv_frame; [apply schemas_flushed|apply channels_flushed|exact Hi].
+Qed.
+
+Lemma new_writer_inv w0 : new_writer o None = (w0, None) -> sch_inv w0.
+Proof.
+  unfold new_writer.
+  destruct (o_skip_magic o); [|rewrite dst_write_none; cbn [bindw]; rewrite log_eq]; cbn [bindw]; intro H;
+  (assert (E : w_schemas w0 = [] /\ w_channels w0 = []);
+   [destruct (o_chunked o);
+    [destruct (o_custom o);
+     [destruct (bytes_eqb (o_comp o) [])
+     |destruct (bytes_eqb (o_comp o) comp_zstd || bytes_eqb (o_comp o) comp_lz4 || bytes_eqb (o_comp o) [])]|];
+    try discriminate; injection H as <-; split; reflexivity
+   |destruct E as [E1 E2]; unfold sch_inv; rewrite E1, E2; split; constructor]).
+Qed.
+
+End ClosePass.
+
+Lemma body_data_calls topics sch msgs : Forall data_call (db3_body_calls topics sch msgs).
+Proof.
+  rewrite db3_body_calls_eq. constructor; [exact I|]. apply Forall_app. split.
+  - generalize 0. induction (msg_topics topics) as [|t r IH]; intro i; [constructor|].
+    rewrite topics_calls_cons. constructor; [exact I|]. constructor; [exact I|]. apply IH.
+  - apply Forall_map. apply Forall_forall. intros x _. exact I.
+Qed.
+
+(* the writer accepts every specified call, the deferred Close included *)
+Theorem db3_expected_calls_ok o lib compress topics sch msgs :
+  db3_accepts o topics (Some sch) msgs = true ->
+  calls_ok (W o lib compress None (db3_expected_calls topics sch msgs)).
+Proof.
+  intro H. destruct (db3_to_mcap_accepted o lib compress topics sch msgs H) as [_ Hb].
+  apply calls_ok_exec in Hb as (w0 & EN & Hp). apply calls_ok_exec. exists w0. split; [exact EN|].
+  unfold db3_expected_calls. apply calls_pass_app. split; [exact Hp|]. cbn [calls_pass]. split; [|exact I].
+  apply close_pass. apply exec_inv; [apply body_data_calls|exact Hp|]. apply new_writer_inv, EN.
+Qed.
